@@ -61,6 +61,9 @@ def build_histories(tier, seed, prop):
     for h in drive_book.generate((N_DEEP[tier] * 3) // 5, sub_seed(seed, "book-sweep"), flavour="sweep"):
         h["src"] = "random-sweep"
         hs.append(h)
+    for h in drive_book.generate(max(2, N_DEEP[tier] // 50), sub_seed(seed, "book-long"), flavour="long"):
+        h["src"] = "random-long"
+        hs.append(h)
     for h in drive_book.generate(N_DEEP[tier] // 2, sub_seed(seed, "book-jumpy"), flavour="jumpy"):
         h["src"] = "random-jumpy"
         hs.append(h)
